@@ -41,6 +41,10 @@ func main() {
 	switch fam {
 	case "plan":
 		stats = famPlan(tr, *scratch, *seed, *tier, *workers)
+	case "iso":
+		stats = famIso(tr, *scratch, *seed, *tier, *workers)
+	case "conc":
+		stats = famConc(tr, *scratch, *seed, *tier)
 	case "repro":
 		stats = famRepro(tr, *scratch, *seed, *tier, *nfpmBin)
 	case "fault":
